@@ -105,17 +105,36 @@ fn c09_will_collateral_be_sufficient_exact_u8() {
 // ------------------------------------------------------------------------------------------------
 // (2) check_liquidatable
 
-/// Market/position for the liquidation rule. `full = false`: no fees, no price impact, borrowing and
-/// funding settled (their code still runs, on zeros).
-pub fn liq_state<T, const D: u8>(full: bool) -> (VPosition<T, D>, Prices<T>)
+/// Market/position for the liquidation rule.
+///
+/// `level 0` (quick): position size in usd pinned to 100 inside a usd open interest of 120 on its
+/// own slot; size in tokens, collateral, the own open-interest-in-tokens slot, its side of the
+/// liquidity pool, thresholds and prices (flat collateral price, index price with spread) symbolic; no fees, no price impact, borrowing and funding settled (their code still runs, on
+/// zeros). `level 1`: every pool slot and every price (min <= max) symbolic, still zero fees/impact
+/// (the exact reference below applies). `level 2`: additionally symbolic order/borrowing fees and
+/// position-impact factors (reference = the real `check_liquidatable` on the same state).
+pub fn liq_state<T, const D: u8>(level: u8) -> (VPosition<T, D>, Prices<T>)
 where
     T: FixedPointOps<D> + CheckedSub + Copy + kani::Arbitrary + Into<u32> + num_traits::Bounded,
     T::Signed: Num + Copy + kani::Arbitrary,
 {
+    let is_long: bool = kani::any();
+    let cl: bool = kani::any();
     let mut m = VMarket::<T, D>::zero();
-    m.open_interest = Side2 { long: VPool::any(), short: VPool::any() };
-    m.open_interest_in_tokens = Side2 { long: VPool::any(), short: VPool::any() };
-    m.liquidity = VPool::any();
+    if level == 0 {
+        let (oit, liq): (T, T) = (kani::any(), kani::any());
+        // usd open interest of the own slot: the position (100) plus a rest of 20
+        let oi = T::from_u8(120).unwrap();
+        let pool = m.open_interest.get_mut(is_long);
+        if cl { pool.long = oi } else { pool.short = oi }
+        let pool = m.open_interest_in_tokens.get_mut(is_long);
+        if cl { pool.long = oit } else { pool.short = oit }
+        if is_long { m.liquidity.long = liq } else { m.liquidity.short = liq }
+    } else {
+        m.open_interest = Side2 { long: VPool::any(), short: VPool::any() };
+        m.open_interest_in_tokens = Side2 { long: VPool::any(), short: VPool::any() };
+        m.liquidity = VPool::any();
+    }
     m.pnl_factor.trader = Side2::any();
     m.position_params.min_position_size_usd = kani::any();
     m.position_params.min_collateral_value = kani::any();
@@ -123,7 +142,7 @@ where
     m.position_params.min_collateral_factor_for_liquidation = kani::any();
     m.position_impact_params.exponent = T::UNIT;
     m.funding_amount_per_size_adjustment = T::one();
-    if full {
+    if level >= 2 {
         m.position_impact_params.positive_factor = kani::any();
         m.position_impact_params.negative_factor = kani::any();
         m.position_params.max_position_impact_factor_for_liquidations = kani::any();
@@ -133,20 +152,32 @@ where
         m.borrowing.receiver_factor = kani::any();
         m.borrowing_factor = VPool::any();
     }
-    let is_long: bool = kani::any();
-    let cl: bool = kani::any();
     let mut p = VPosition::<T, D>::zero(m, is_long, cl);
-    p.size_in_usd = kani::any();
+    // level 0 pins the usd size (fees and price impact, which only depend on it and on the usd open
+    // interest, then run on concrete values); tokens, collateral, prices and thresholds stay symbolic
+    p.size_in_usd = if level == 0 { T::from_u8(100).unwrap() } else { kani::any() };
     p.size_in_tokens = kani::any();
     p.collateral_amount = kani::any();
-    if full {
+    if level >= 2 {
         p.borrowing_factor = kani::any();
         kani::assume(p.borrowing_factor <= *m.borrowing_factor.side(is_long));
     }
     // the pools contain the position
     kani::assume(*m.open_interest.get(is_long).side(cl) >= p.size_in_usd);
     kani::assume(*m.open_interest_in_tokens.get(is_long).side(cl) >= p.size_in_tokens);
-    (p, any_prices(true))
+    let prices = if level == 0 {
+        let index: gmsol_model::price::Price<T> = any_price();
+        let c: T = kani::any();
+        kani::assume(!index.min.is_zero() && index.min <= index.max && !c.is_zero());
+        Prices {
+            index_token_price: index,
+            long_token_price: gmsol_model::price::Price { min: c, max: c },
+            short_token_price: gmsol_model::price::Price { min: c, max: c },
+        }
+    } else {
+        any_prices(true)
+    };
+    (p, prices)
 }
 
 /// Exact pnl of the whole position (capped for the trader), `None` when the code cannot compute it.
@@ -258,12 +289,12 @@ where
     })
 }
 
-fn check_liquidatable_exact<T, const D: u8>()
+fn check_liquidatable_exact<T, const D: u8>(level: u8)
 where
     T: FixedPointOps<D> + CheckedSub + Copy + kani::Arbitrary + Into<u32> + num_traits::Bounded,
     T::Signed: Num + Copy + kani::Arbitrary,
 {
-    let (p, prices) = liq_state::<T, D>(false);
+    let (p, prices) = liq_state::<T, D>(level);
     let validate_min: bool = kani::any();
     let for_liquidation: bool = kani::any();
     let r = p.check_liquidatable(&prices, validate_min, for_liquidation);
@@ -281,25 +312,62 @@ where
     core::mem::forget(r);
 }
 
-//@ prop=C09 tier=quick kind=hold
+//@ prop=C09 tier=thorough kind=hold
 //@ enc=PositionExt::check_liquidatable, PositionExt::pnl_value, MarketUtils::cap_pnl, BaseMarketExt::pnl, PositionExt::collateral_value, PositionExt::position_price_impact, PerpMarketExt::cap_negative_position_price_impact, PositionExt::position_fees, position::check_collateral
-//@ bound=T=u8, DECIMALS=1: every position (sizes, collateral, side, collateral token), open-interest / liquidity pool, trader pnl factor, position thresholds (incl. the optional liquidation factor), ordered prices (0 < min <= max) and both flags; order/borrowing/funding/liquidation fees and position-impact factors are zero (their code runs on zeros)
+//@ bound=T=u8, DECIMALS=1: every position (sizes, collateral, side, collateral token), every open-interest / liquidity pool slot, trader pnl factor, position thresholds (incl. the optional liquidation factor), ordered prices (0 < min <= max) and both flags; order/borrowing/funding/liquidation fees and position-impact factors are zero (their code runs on zeros)
 //@ stubs=none; assumed: the position's pool slots contain the position
+//@ timeout=3600 mem=30
 #[kani::proof]
 #[kani::unwind(4)]
 fn c09_check_liquidatable_exact_u8() {
-    check_liquidatable_exact::<u8, 1>();
+    check_liquidatable_exact::<u8, 1>(1);
+}
+
+//@ prop=C09 tier=quick kind=hold
+//@ enc=PositionExt::check_liquidatable, PositionExt::pnl_value, MarketUtils::cap_pnl, BaseMarketExt::pnl, PositionExt::collateral_value, PositionExt::position_price_impact, PositionExt::position_fees, position::check_collateral
+//@ bound=T=u8, DECIMALS=1: position size in usd = 100 (own usd open-interest slot 120, other slots 0); every size in tokens, collateral, side, collateral token, own open-interest-in-tokens slot, own side of the liquidity pool, trader pnl factor, position thresholds (incl. the optional liquidation factor), index price with spread, flat collateral price, both flags; fees and position-impact factors zero
+//@ stubs=none; assumed: the position's pool slots contain the position
+#[kani::proof]
+#[kani::unwind(4)]
+fn c09_check_liquidatable_exact_own_slots_u8() {
+    check_liquidatable_exact::<u8, 1>(0);
 }
 
 // ------------------------------------------------------------------------------------------------
 // (3) the liquidation gate, (4) validate
 
-fn liquidation_gate<T, const D: u8>(full: bool)
+/// Reference verdict for the state: the exact rule (levels 0/1) or the real function (level 2).
+/// `Err(())` when it is not computable.
+fn health_ref<T, const D: u8>(
+    self_oracle: bool,
+    p: &VPosition<T, D>,
+    prices: &Prices<T>,
+    validate_min: bool,
+    for_liquidation: bool,
+) -> Result<Verdict, ()>
+where
+    T: FixedPointOps<D> + CheckedSub + Copy + Into<u32> + num_traits::Bounded,
+    T::Signed: Num + Copy,
+{
+    if !self_oracle {
+        liquidatable_ref(p, prices, validate_min, for_liquidation).ok_or(())
+    } else {
+        let r = p.check_liquidatable(prices, validate_min, for_liquidation);
+        let v = match &r {
+            Ok(v) => Ok(verdict_of(v)),
+            Err(_) => Err(()),
+        };
+        core::mem::forget(r);
+        v
+    }
+}
+
+fn liquidation_gate<T, const D: u8>(level: u8, self_oracle: bool)
 where
     T: FixedPointOps<D> + CheckedSub + Copy + kani::Arbitrary + Into<u32> + num_traits::Bounded,
     T::Signed: Num + Copy + kani::Arbitrary,
 {
-    let (p, prices) = liq_state::<T, D>(full);
+    let (p, prices) = liq_state::<T, D>(level);
     let flags = DecreasePositionFlags {
         is_insolvent_close_allowed: kani::any(),
         is_liquidation_order: kani::any(),
@@ -311,76 +379,118 @@ where
         core::mem::forget(a);
         return;
     };
-    // reference: the real health check under the liquidation thresholds on the same state
-    let health = p.check_liquidatable(&prices, true, true);
+    // reference: health under the liquidation thresholds, min collateral value included
+    let health = health_ref(self_oracle, &p, &prices, true, true);
     let gate = a.verif_check_liquidation();
     if !flags.is_liquidation_order {
         assert!(gate.is_ok());
     } else {
-        match &health {
-            Ok(Some(_)) => {
-                assert!(gate.is_ok());
-                kani::cover!(true, "liquidation admitted");
+        match &gate {
+            Ok(()) => {
+                // a liquidation order is admitted only for a liquidatable position
+                assert!(matches!(health, Ok(v) if v != Verdict::Healthy));
+                kani::cover!(matches!(health, Ok(Verdict::MinCollateral)), "admitted: below min collateral value");
+                kani::cover!(matches!(health, Ok(Verdict::Leverage)), "admitted: leverage");
+                kani::cover!(matches!(health, Ok(Verdict::NotPositive)), "admitted: nothing left");
             }
-            Ok(None) => {
-                assert!(matches!(gate, Err(gmsol_model::Error::NotLiquidatable)));
+            Err(gmsol_model::Error::NotLiquidatable) => {
+                assert!(matches!(health, Ok(Verdict::Healthy)));
                 kani::cover!(true, "liquidation of a healthy position rejected");
             }
-            Err(_) => assert!(gate.is_err()),
+            Err(_) => {
+                // the health is not computable (overflow at this width)
+                assert!(!self_oracle || health.is_err());
+            }
         }
     }
-    core::mem::forget(health);
     core::mem::forget(gate);
 }
 
 //@ prop=C09 tier=quick kind=hold
-//@ enc=DecreasePosition::try_new, DecreasePosition::check_liquidation, PositionExt::check_liquidatable
-//@ bound=T=u8, DECIMALS=1: state space of c09_check_liquidatable_exact_u8, every size delta and flag combination
-//@ stubs=none; reference = the real check_liquidatable(prices, true, true) on the same state (itself compared with an exact rule in c09_check_liquidatable_exact_u8); hook: DecreasePosition::verif_check_liquidation
+//@ enc=DecreasePosition::try_new, DecreasePosition::check_liquidation, PositionExt::check_liquidatable (pnl_value, cap_pnl, collateral_value, position_price_impact, position_fees, check_collateral)
+//@ bound=T=u8, DECIMALS=1: state space of c09_check_liquidatable_exact_own_slots_u8, every size delta and flag combination
+//@ stubs=none; reference = exact remaining-collateral rule in wider integers (pnl with trader cap, liquidation thresholds); hook: DecreasePosition::verif_check_liquidation
 #[kani::proof]
 #[kani::unwind(4)]
 fn c09_liquidation_gate_u8() {
-    liquidation_gate::<u8, 1>(false);
+    liquidation_gate::<u8, 1>(0, true);
 }
 
-fn validate_implies_healthy<T, const D: u8>(full: bool)
+//@ prop=C09 tier=thorough kind=hold
+//@ enc=DecreasePosition::try_new, DecreasePosition::check_liquidation, PositionExt::check_liquidatable
+//@ bound=T=u8, DECIMALS=1: state space of c09_check_liquidatable_exact_u8 (all pool slots, all prices), every size delta and flag combination
+//@ stubs=none; reference = exact rule; hook as above
+//@ timeout=3600 mem=30
+#[kani::proof]
+#[kani::unwind(4)]
+fn c09_liquidation_gate_all_pools_u8() {
+    liquidation_gate::<u8, 1>(1, false);
+}
+
+//@ prop=C09 tier=thorough kind=hold
+//@ enc=DecreasePosition::try_new, DecreasePosition::check_liquidation, PositionExt::check_liquidatable
+//@ bound=T=u8, DECIMALS=1: as c09_liquidation_gate_all_pools_u8 plus symbolic order/borrowing fees and position-impact factors (exponent 1*UNIT)
+//@ stubs=none; reference = the real check_liquidatable(prices, true, true) on the same state
+//@ timeout=3600 mem=30
+#[kani::proof]
+#[kani::unwind(4)]
+fn c09_liquidation_gate_with_fees_u8() {
+    liquidation_gate::<u8, 1>(2, true);
+}
+
+fn validate_implies_healthy<T, const D: u8>(level: u8, self_oracle: bool)
 where
     T: FixedPointOps<D> + CheckedSub + Copy + kani::Arbitrary + Into<u32> + num_traits::Bounded,
     T::Signed: Num + Copy + kani::Arbitrary,
 {
-    let (p, prices) = liq_state::<T, D>(full);
+    let (p, prices) = liq_state::<T, D>(level);
     let check_size: bool = kani::any();
     let check_min_collateral: bool = kani::any();
-    let health = p.check_liquidatable(&prices, check_min_collateral, false);
+    let health = health_ref(self_oracle, &p, &prices, check_min_collateral, false);
     let v = p.validate(&prices, check_size, check_min_collateral);
-    if v.is_ok() {
-        assert!(!p.size_in_usd.is_zero() && !p.size_in_tokens.is_zero());
-        assert!(!check_size || p.size_in_usd >= p.market.position_params.min_position_size_usd);
-        assert!(matches!(health, Ok(None)));
-        kani::cover!(check_size && check_min_collateral, "validated with both options");
-        kani::cover!(!check_size && !check_min_collateral, "validated with neither option");
-    } else {
-        kani::cover!(matches!(health, Ok(Some(_))), "rejected as liquidatable");
-        kani::cover!(matches!(health, Ok(None)) && check_size, "rejected as too small");
-        // the only reasons to reject a position whose health is computable and fine
-        if matches!(health, Ok(None)) {
-            assert!(
-                p.size_in_usd.is_zero()
-                    || p.size_in_tokens.is_zero()
-                    || (check_size && p.size_in_usd < p.market.position_params.min_position_size_usd)
-            );
+    let too_small = check_size && p.size_in_usd < p.market.position_params.min_position_size_usd;
+    let zero = p.size_in_usd.is_zero() || p.size_in_tokens.is_zero();
+    match &v {
+        Ok(()) => {
+            assert!(!zero && !too_small);
+            // a validated position is not liquidatable at these prices (regular thresholds)
+            assert!(matches!(health, Ok(Verdict::Healthy)));
+            kani::cover!(check_size && check_min_collateral, "validated with both options");
+            kani::cover!(!check_size && !check_min_collateral, "validated with neither option");
+        }
+        Err(gmsol_model::Error::Liquidatable(_)) => {
+            assert!(!zero && !too_small);
+            assert!(matches!(health, Ok(h) if h != Verdict::Healthy));
+            kani::cover!(true, "rejected as liquidatable");
+        }
+        Err(gmsol_model::Error::InvalidPosition(_)) => {
+            assert!(zero || too_small);
+            kani::cover!(!zero && too_small, "rejected as too small");
+        }
+        Err(_) => {
+            assert!(!zero && !too_small);
         }
     }
-    core::mem::forget(health);
     core::mem::forget(v);
 }
 
 //@ prop=C09 tier=quick kind=hold
-//@ enc=PositionExt::validate, PositionExt::check_liquidatable
-//@ bound=T=u8, DECIMALS=1: state space of c09_check_liquidatable_exact_u8, both validation options
-//@ stubs=none; reference = the real check_liquidatable(prices, validate_min_collateral, false) on the same state
+//@ enc=PositionExt::validate, PositionExt::check_liquidatable (pnl_value, cap_pnl, collateral_value, position_price_impact, position_fees, check_collateral)
+//@ bound=T=u8, DECIMALS=1: state space of c09_check_liquidatable_exact_own_slots_u8, both validation options
+//@ stubs=none; reference = exact remaining-collateral rule in wider integers (regular thresholds)
 #[kani::proof]
 #[kani::unwind(4)]
 fn c09_validate_implies_healthy_u8() {
-    validate_implies_healthy::<u8, 1>(false);
+    validate_implies_healthy::<u8, 1>(0, true);
+}
+
+//@ prop=C09 tier=thorough kind=hold
+//@ enc=PositionExt::validate, PositionExt::check_liquidatable
+//@ bound=T=u8, DECIMALS=1: as c09_liquidation_gate_with_fees_u8, both validation options
+//@ stubs=none; reference = the real check_liquidatable(prices, validate_min_collateral, false) on the same state
+//@ timeout=3600 mem=30
+#[kani::proof]
+#[kani::unwind(4)]
+fn c09_validate_implies_healthy_with_fees_u8() {
+    validate_implies_healthy::<u8, 1>(2, true);
 }
